@@ -17,6 +17,9 @@ def run(tier, replay=None):
     if tier == "quick":
         k = seed() % 3
         cases = [c for i, c in enumerate(cases) if i % 3 == k]
+    else:                       # NL = 4: half a million files; every 6th, rotating with the seed
+        k = seed() % 6
+        cases = [c for i, c in enumerate(cases) if i % 6 == k]
     # one stray symbol (every ASCII punctuation mark, a digit) alone / before / inside / after an instruction
     scases, sres = tlc_generate("Gen_Strays", heap="8g", timeout=3000)
     out.add_tlc(sres)
@@ -80,7 +83,7 @@ def run(tier, replay=None):
         hc.append({"id": 2 * i + 1, "mode": "observe", "files": ff, "base": "main.s",
                    "want": ["files", "nodes", "errors"] + (["items"] if m["items"] else [])})
         hc.append({"id": 2 * i + 2, "mode": "observe", "files": ft, "base": "main.s", "want": ["nodes", "errors"]})
-    tp, evs = run_harness(rvh, hc, wd, "lines")
+    tp, evs = run_harness_par(rvh, hc, wd, "lines", shards=10)
     merged = [{"id": i + 1, "case": items[i][0], "full": evs[2 * i], "twin": evs[2 * i + 1]} for i in range(len(items))]
     for m in merged:
         for side in ("full", "twin"):
@@ -156,7 +159,7 @@ def run(tier, replay=None):
     ]
     return out.finish(extra_cov={
         "generated_files_total": total, "generated_files_run": len(cases), "files_with_twin": len(items),
-        "exhaustive": tier == "thorough",
+        "exhaustive": False,
         "evaluations": 2 * len(items), "distinct_nontrivial": len({json.dumps(i[1], sort_keys=True) for i in items}),
         "rule": "Gen_TokLines: every sequence of <= 3 (thorough 4) tokens over 12 token classes as middle / last / unterminated last line (quick: every 2nd); Gen_Strays: 29 stray symbols x 5 placements x line position x good-line context x 2 endings (quick: every 5th); Gen_Lines: NL-line files (quick NL=3, every 3rd case rotating with seed; thorough NL=4, all) = good-line choices x 13 fault kinds x position x 3 line endings, every fifth through .include; + 7 faults x 3 endings injected at a random line of every repository/corpus program; each with its line-deleted twin",
     })
